@@ -26,6 +26,7 @@ MANIFEST = dict(
 
 def run(ctx):
     res, broken = vlib.proof_step(ctx, PROJ, "C14", genparams)
+    res, broken = cc.compose_step(ctx, "C14", res, broken)
     hbin, dbin = cc.build_tools()
     if ctx.tier == "quick":
         zones, n = cc.QUICK_ZONES, 1800
